@@ -1,6 +1,6 @@
 PROPS["C15"] = prop(
     "exploration",
-    "rapid-generated histories of call invitations and call events from several sessions of caller, callee and a third user under a virtual clock; oracle: reference model of the call state machine compared after every step with the messages added to the store, every {info what=call} frame at every session and the topic's call flag; final check that every started call has exactly one ending; session 3: calling configured through initVideoCalls, events addressed by the full p2p name (also by a third user), store failure during acceptance, store latency; after seeded round 6: a party dropped by the topic for a full send queue ends the call as 'disconnected'; the other party of an established call is told about a hang-up also when the final message cannot be saved",
+    "rapid-generated histories of call invitations and call events from several sessions of caller, callee and a third user under a virtual clock; oracle: reference model of the call state machine compared after every step with the messages added to the store, every {info what=call} frame at every session and the topic's call flag; final check that every started call has exactly one ending; session 3: calling configured through initVideoCalls, events addressed by the full p2p name (also by a third user), store failure during acceptance, store latency; after seeded round 6: a party dropped by the topic for a full send queue ends the call as 'disconnected'; the other party of an established call is told about a hang-up also when the final message cannot be saved; round 7: a party leaving for good ({leave unsub}) during a call, the caller not reading while the call is answered",
     "program = 3-5 sessions of 3 users, 2-3 P2P topics + a group, 5-24 ops: invitations (incl. in a group, while busy, with calling not configured), call events {ringing, accept, offer, answer, ice-candidate, hang-up, bogus} naming the current / a finished / a wrong call, leave, disconnect, reconnect, ticks around the 3 s / 8 s timeout, ordinary publishes; "
     "non-trivial = >=1 invitation, >=1 acceptance, >=1 ending and >=1 event that must be ignored; distinct = FNV-64 of the program",
     "Every step is compared with the model (store delta, frames at all sessions, call flag). Sampled.",
